@@ -392,8 +392,22 @@ def check_allocator(ctx):
               "next_file_number is written by %s" % sorted(owners))
     nf = ctx.fn("ldb_versions_new_file_number", VS)
     r = [e for b, i, e in nf.events("ret")]
-    ctx.check(len(r) == 1 and key(r[0].get("x")) == "(vset->next_file_number++)", "T6-allocator", "post-increment", nf.name,
-              nf.loc, "a number is handed out once (post-increment)", "new_file_number returns %s" % [key(x.get("x")) for x in r])
+    from ..rules import value_source, incr_events, never_after
+    rk = key(r[0].get("x")) if len(r) == 1 else None
+    direct = rk == "(vset->next_file_number++)"
+    # or: the old value is read into a local, the counter is stepped by one afterwards, the local is returned
+    via_local = len(r) == 1 and value_source(nf, r[0].get("x")) == "vset->next_file_number" and \
+        len(incr_events(nf, "vset->next_file_number", 1)) == 1
+    if via_local and not direct:
+        rd = [(b, i, e) for (b, i, e) in nf.events() if (e["e"] == "asg" and key(e["rhs"]) == "vset->next_file_number") or
+              (e["e"] == "decl" and key(e.get("init")) == "vset->next_file_number")]
+        inc = incr_events(nf, "vset->next_file_number", 1)
+        via_local = len(rd) == 1 and never_after(ctx, "T6-allocator", "read-before-step", nf,
+                                                  lambda e: incr_events(nf, "vset->next_file_number", 1)[0][2].get("_of", incr_events(nf, "vset->next_file_number", 1)[0][2]) is e,
+                                                  lambda e: e is rd[0][2], "the number handed out is read before the counter is stepped")
+    ctx.check(direct or via_local, "T6-allocator", "post-increment", nf.name,
+              nf.loc, "a number is handed out once (the old value is returned, the counter steps by one)",
+              "new_file_number returns %s" % [key(x.get("x")) for x in r])
     mk = ctx.fn("ldb_versions_mark_file_number", VS)
     for f, b, i, e in owners.get("ldb_versions_mark_file_number", []):
         ctx.check(key(e["rhs"]) == "(number + 1)" and holds(xgraph(P, mk).must_at(b, i), ("<=", "vset->next_file_number", "number")),
